@@ -1,7 +1,7 @@
 (* C02 - instantiation for every tabulated setting (Gen/SGTables.v is regenerated from /repo on every run). *)
 From Coq Require Import ZArith List Bool Lia Permutation.
-From DS Require Import Base.ZMat Base.SGDefs Model.GroupCheck Model.C02_Orbit Model.C02_Eps Model.C02_Gen Gen.SGTables.
-From DS Require Import Proofs.C03All Proofs.C02_Action Proofs.C02_Expand Proofs.C02_OrbitStab Proofs.C02_EpsSound Proofs.C02_NearSpecial Proofs.C02_GenSound Proofs.C02_GenCheck.
+From DS Require Import Base.ZMat Base.SGDefs Model.GroupCheck Model.C02_Orbit Model.C02_Eps Model.C02_Gen Model.C02_EpsTol Gen.SGTables.
+From DS Require Import Proofs.C03All Proofs.C02_Action Proofs.C02_Expand Proofs.C02_OrbitStab Proofs.C02_EpsSound Proofs.C02_NearSpecial Proofs.C02_GenSound Proofs.C02_GenCheck Proofs.C02_EpsTol Proofs.C02_NearSpecialTol Proofs.C02_GenSoundTol Proofs.C02_GenCheckTol.
 Import ListNotations.
 Open Scope Z_scope.
 
@@ -165,3 +165,68 @@ Lemma snap_fixes_tabulated : forall s D off x x0, In s all_settings -> 0 < D -> 
      Some (GSite (D * n) xs (vscale n off) pos ops m (stab (D * n) G (vscale n off) xs)))
   /\ incl (stab D G off x0) (stab (D * n) G (vscale n off) xs).
 Proof. intros s D off x x0 Hs HD H12 Hb. apply snap_fixes_site_checked; try assumption. apply all_groups; exact Hs. Qed.
+
+(* ---- any tolerances (eps argument) ---- *)
+Lemma near_special_spec_t T D G off x x0 : tol_wf T -> IsGroup G -> 0 < D -> (12 | D) ->
+  within_tol_t T D G off x x0 -> between_far_t T D G off x x0 ->
+  let '(pos0, ops0, m0) := expand_exact D G off x0 in
+  expand_eps_t T D G off x = (map (rep_of_t D off x) ops0, ops0, m0) /\
+  hd_error (map (rep_of_t D off x) ops0) = Some (red D x) /\
+  (forall l, In l ops0 -> exists g, In g l /\ rep_of_t D off x l = img D g off x) /\
+  attribution_ok D G off x0 pos0 ops0 /\ Permutation (concat ops0) G /\
+  (m0 * List.length (stab D G off x0))%nat = List.length G.
+Proof.
+  intros Hwf HG HD H12 Hw Hb.
+  pose proof (expand_eps_near_special_t T Hwf D G off x x0 HD Hw Hb) as Hn.
+  pose proof (expand_exact_spec D G off x0 HG HD H12) as Hs.
+  destruct (expand_exact D G off x0) as [[pos0 ops0] m0].
+  destruct Hs as [_ [_ [Hhd [Hpos [Hattr [Hperm [_ Hos]]]]]]].
+  split; [exact Hn|]. split; [|split; [|split; [exact Hattr | split; [exact Hperm | exact Hos]]]].
+  - destruct Hattr as [Hops _]. destruct pos0 as [|p0 r]; cbn [hd_error] in Hhd; [discriminate|]. inversion Hhd; subst p0.
+    rewrite Hops. cbn [map hd_error]. change (fibre D G off x0 (red D x0)) with (stab D G off x0).
+    destruct (stab_head_ident D G off x0 HG) as [l ->]. unfold rep_of_t. cbn [hd]. rewrite img_ident. reflexivity.
+  - intros l Hl. destruct Hattr as [Hops _]. rewrite Hops in Hl. apply in_map_iff in Hl as [p [<- Hp]].
+    apply Hpos in Hp as [g [Hg Hpg]].
+    assert (Hin : In g (fibre D G off x0 p)) by (unfold fibre; apply filter_In; split; [exact Hg | unfold sends; apply v3_eqb_eq; symmetry; exact Hpg]).
+    destruct (fibre D G off x0 p) as [|g1 t]; [destruct Hin|]. exists g1. split; [left; reflexivity | reflexivity].
+Qed.
+
+Lemma near_special_spec_t_tabulated : forall T s D off x x0, tol_wf T -> In s all_settings -> 0 < D -> (12 | D) ->
+  within_tol_t T D (sg_ops s) off x x0 -> between_far_t T D (sg_ops s) off x x0 ->
+  let G := sg_ops s in
+  let '(pos0, ops0, m0) := expand_exact D G off x0 in
+  expand_eps_t T D G off x = (map (rep_of_t D off x) ops0, ops0, m0) /\
+  hd_error (map (rep_of_t D off x) ops0) = Some (red D x) /\
+  (forall l, In l ops0 -> exists g, In g l /\ rep_of_t D off x l = img D g off x) /\
+  attribution_ok D G off x0 pos0 ops0 /\ Permutation (concat ops0) G /\
+  (m0 * List.length (stab D G off x0))%nat = List.length G.
+Proof. intros T s D off x x0 Hwf Hs HD H12 Hw Hb. apply near_special_spec_t; try assumption. apply all_groups; exact Hs. Qed.
+
+Lemma snap_fixes_tabulated_t : forall T s D off x x0, tol_wf T -> In s all_settings -> 0 < D -> (12 | D) ->
+  snap_hyps_tb T D (sg_ops s) off x x0 = true ->
+  let G := sg_ops s in
+  let n := Z.of_nat (List.length (stab D G off x0)) in
+  let xs := snapped_site D G off x x0 in
+  generator_site_t T D G off x =
+    (let '(pos, ops, m) := expand_exact (D * n) G (vscale n off) xs in
+     Some (GSite (D * n) xs (vscale n off) pos ops m (stab (D * n) G (vscale n off) xs)))
+  /\ incl (stab D G off x0) (stab (D * n) G (vscale n off) xs).
+Proof. intros T s D off x x0 Hwf Hs HD H12 Hb. apply snap_fixes_site_t_checked; try assumption. apply all_groups; exact Hs. Qed.
+
+Lemma expand_asym_tabulated_t : forall T s D off sites, tol_wf T -> In s all_settings -> 0 < D -> (12 | D) ->
+  (forall y, In y sites -> separated_t T D (sg_ops s) off y) ->
+  expand_asym_t T D (sg_ops s) off sites =
+  Some (Asym (map (fun y => snd (expand_exact D (sg_ops s) off y)) sites)
+             (map (fun y => (D, fst (fst (expand_exact D (sg_ops s) off y)))) sites)).
+Proof. intros T s D off sites Hwf Hs HD H12 Hsep. apply expand_asym_exact_sites_t; try assumption. apply all_groups; exact Hs. Qed.
+
+(* with eps = 0 ExpandAsymmetricUnit is exact on EVERY list of sites *)
+Lemma expand_asym_eps_zero : forall s D off sites, In s all_settings -> 0 < D -> (12 | D) ->
+  expand_asym_t (tol_of (Some (0, 1))) D (sg_ops s) off sites =
+  Some (Asym (map (fun y => snd (expand_exact D (sg_ops s) off y)) sites)
+             (map (fun y => (D, fst (fst (expand_exact D (sg_ops s) off y)))) sites)).
+Proof.
+  intros s D off sites Hs HD H12. apply expand_asym_tabulated_t; try assumption.
+  - exact T_0_wf.
+  - intros y _. apply exact_mode_separated; [exact tol_zero_exact | exact HD].
+Qed.
